@@ -8,6 +8,7 @@ import Plenc.Plenctag
 import Plenc.JSONOut
 import Plenc.Intern
 import Plenc.RegistryTrace
+import Plenc.InternTrace
 /-
   Driver.Main — reads one op per line on stdin, runs the model's executable
   definitions, prints one canonical result line per op.  The Go harness runs the
@@ -225,6 +226,32 @@ def runOp (s : Sexp) : String :=
       let rs : List (List Bytes) := fin.results
       String.intercalate " | " (rs.map fun (r : List Bytes) => String.intercalate "," (r.map hexOf))
     | none => "bad-op"
+  -- C19 trace correspondence: (interntrace (reqs (xA…)…) (schedule…) (events (tid point)…)):
+  -- the recorded releases from the intern yield points replayed on Intern (C19.trace_replay_reach)
+  | .list [.atom "interntrace", .list (.atom "reqs" :: ths), _, .list (.atom "events" :: evs)] =>
+    let parseThread : Sexp → Option (List Bytes) := fun th =>
+      match th with
+      | Sexp.list ds => ds.mapM (fun d => match d with | Sexp.atom h => parseHex h | _ => none)
+      | _ => none
+    let parseEv : Sexp → Option (Nat × Intern.TEv) := fun e =>
+      match e with
+      | Sexp.list [Sexp.atom t, Sexp.atom "load"] => t.toNat?.map (·, Intern.TEv.load)
+      | Sexp.list [Sexp.atom t, Sexp.atom "miss"] => t.toNat?.map (·, Intern.TEv.miss)
+      | Sexp.list [Sexp.atom t, Sexp.atom "locked"] => t.toNat?.map (·, Intern.TEv.locked)
+      | Sexp.list [Sexp.atom t, Sexp.atom "store"] => t.toNat?.map (·, Intern.TEv.store)
+      | _ => none
+    match ths.mapM parseThread, evs.mapM parseEv with
+    | some reqs, some evs =>
+      (match Intern.conformT (Intern.init reqs) evs 0 with
+       | .error (k, m) => s!"deviates at event {k}: {m}"
+       | .ok s =>
+         if !s.finished then "deviates after the last event: the model's goroutines are not finished"
+         else
+           let keys := sortStrings (s.keys.map hexOf)
+           let rs : List (List Bytes) := s.results
+           "conforms keys=" ++ String.intercalate "," keys ++ " results=" ++
+             String.intercalate " | " (rs.map fun (r : List Bytes) => String.intercalate "," (r.map hexOf)))
+    | _, _ => "bad-op"
   -- C20: (tagtool J S P (st (fd (n names…) xEMB TAG)…)…)
   | .list (.atom "tagtool" :: .atom j :: .atom sq :: .atom pr :: structs) =>
     match structs.mapM (fun st => match st with
